@@ -60,6 +60,7 @@ type interpreter struct {
 	ro      []roRegion
 	counters map[string]int
 	nextID  int
+	fnSeen  map[*ssa.Function]bool
 }
 
 type deferred struct {
@@ -576,6 +577,18 @@ func callSSA(i *interpreter, caller *frame, callpos token.Pos, fn *ssa.Function,
 	}
 	if i.w.Trace {
 		fmt.Fprintf(os.Stderr, "%senter %s\n", strings.Repeat(" ", depth(fr)), name)
+	}
+	if !i.fnSeen[fn] {
+		i.fnSeen[fn] = true
+		if fn.Pkg != nil {
+			pp := fn.Pkg.Pkg.Path()
+			if (strings.HasPrefix(pp, "github.com/thanos-community/promql-engine") && !strings.Contains(pp, "/zzverif/")) ||
+				strings.HasPrefix(pp, "github.com/prometheus/prometheus") || strings.HasPrefix(pp, "gonum.org") {
+				if !strings.Contains(fn.Name(), "Verif") && !strings.HasPrefix(fn.Name(), "init") {
+					i.path.res.Funcs[name] = true
+				}
+			}
+		}
 	}
 
 	prevTop := (*frame)(nil)
